@@ -1,6 +1,6 @@
 (* C29 — cover completeness for target arm: reflection of the closure check on the regenerated table *)
 From Coq Require Import String List.
-From PV Require Import Spec.BurgCoverSpec Spec.IRTrees Spec.C29Known Model.BurgCover Proofs.C29_cover Gen.Tab_burg_arm.
+From PV Require Import Spec.BurgCoverSpec Spec.IRTrees Spec.C29Known Model.BurgCover Model.C29Synth Proofs.C29_cover Gen.Tab_burg_arm.
 Import ListNotations.
 Local Open Scope string_scope.
 
@@ -10,3 +10,7 @@ Proof. vm_compute. reflexivity. Qed.
 Theorem cover_complete_arm : forall t,
   in_lang (irtrees desc_arm excl_arm) "S" t -> covers (usable assume_arm rules_arm) t "stm".
 Proof. exact (closure_ok_complete _ _ _ _ closure_arm). Qed.
+
+(* the synthesized rules (UND<ty>, CALL, ASM) produce registers of the class the target maps the type to *)
+Lemma synth_classes_arm : synth_bad desc_arm clsnt_arm synth_arm = [] /\ synth_complete desc_arm synth_arm = true.
+Proof. split; vm_compute; reflexivity. Qed.
